@@ -1112,25 +1112,7 @@ Lemma complete_frames_idem L st :
   s_complete st = true -> s_finished st = false -> complete_frames L st = Some st.
 Proof. intros Hc Hf. unfold complete_frames. rewrite Hf, Hc. reflexivity. Qed.
 
-Corollary finish_fixed_classical L cord pord st st1 st' :
-  ml_classical L = true -> complete_frames L st = Some st1 ->
-  tuples_ok st1 -> id_binary st1 ->
-  (forall c, In c cord <-> In c (s_consts st1)) -> pord_covers pord st1 ->
-  finish_fixed L cord pord st = Some st' ->
-  (forall w, In w (s_fkeys st') -> frame_classical st' w) /\
-  s_finished st' = true /\ s_fkeys st' = s_fkeys st1 /\ s_consts st' = s_consts st1.
-Proof.
-  intros Hcl Hcf Hok Hbin Hcord Hpc. unfold finish_fixed. rewrite Hcl, Hcf.
-  destruct (cl_complete_fixed cord pord st1) as [st2|] eqn:E; [|discriminate].
-  destruct (classical_finish_repaired _ _ _ _ Hok Hbin Hcord Hpc E) as (Hall & Hfk & Hcs & _).
-  destruct (complete_frames_flags _ _ _ Hcf) as [Hc1 Hf1].
-  destruct (cl_complete_fixed_meta _ _ _ _ E) as [Hc2 Hf2].
-  unfold base_finish. rewrite complete_frames_idem by congruence.
-  destruct (enforce (ml_access L) (s_R st2)) as [r|]; [|discriminate].
-  intro H; injection H as <-. cbn [s_fkeys s_finished s_consts].
-  split; [|auto]. intros w Hw. rewrite Hfk in Hw. exact (Hall w Hw).
-Qed.
-Print Assumptions finish_fixed_classical.
+(* (the corollary for Model.finish as coded now lives in FinishProofs.v) *)
 
 (* ---- non-vacuity -------------------------------------------------------------------- *)
 (* the state of the witness (a=b, b=c, Fa) after _complete_frames *)
